@@ -38,6 +38,7 @@ def step (s : Unit) (ts : List String) : Unit × Verdict × List String :=
       else if modelRes ≠ some (.err 1 outcome) then (s, .mismatch s!"model: {repr modelRes}", notes)
       else if msN > pollMs + 1500 then (s, .mismatch s!"model: the next pass comes within {pollMs} ms (+ up to 1.5 s for the worker to reach its fault point); observed {msN} ms", notes)
       else (s, .ok, notes)
+    | "NO-OBSERVATION" :: _ => (s, .skip, notes ++ ["no-observation"])
     | "RUNNING" :: _ => (s, .specfail s!"the tracker kept running although its {worker} worker stopped ({mode})", notes)
     | _ => (s, .specfail s!"tracker process: {out}", notes)
   | _ => (s, .bad "unknown op", [])
